@@ -4,6 +4,8 @@ from specs import settings, keys, options, misc
 LEVEL = 'proof'
 UNITS = settings.ctor_units('C17') + [keys.init_unit('C17'), keys.add_key_inner_unit('C17'), keys.add_key_unit('C17'),
                                      keys.instantiate_key_unit('C17'), keys.unlock_unit('C17'), settings.key_lemma('C17')] + keys.make_key_units('C17') + misc.aead_ctor_units('C17') + misc.primitive_units('C17') + keys.config_units('C17') + keys.from_config_units('C17') + keys.validate_units('C17') + options.cmd_handler_units('C17', only=('init', 'add-key'))
+from specs import families as _families
+UNITS = _families.with_families('C17', UNITS)
 BOUNDED = [
     {'name': 'C17.lattice', 'script': 'bounded/c17_lattice.py', 'timeout': 900,
      'bound': '50 settings dictionaries: 3 hashes x valid/invalid sizes, 2 ciphers x key/nonce sizes, 2 KDFs x parameters (incl. non-powers of 2, 0), '
